@@ -61,12 +61,12 @@ type simVersion struct {
 }
 
 type simFile struct {
-	Path     string
-	Prefix   string
-	Format   string // opl json yaml toml
-	Exists   bool
-	Content  string
-	Serial   int
+	Path    string
+	Prefix  string
+	Format  string // opl json yaml toml
+	Exists  bool
+	Content string
+	Serial  int
 	// history of what was DELIVERED to the handler
 	Delivered        []simVersion
 	RemovedDelivered bool
